@@ -9,12 +9,18 @@ import (
 	"os"
 	osexec "os/exec"
 	"path/filepath"
+	"reflect"
+	"sort"
 	"strings"
+	"sync"
 	"syscall"
 
+	abiparser "github.com/tonkeeper/tongo/abi/parser"
 	tlbparser "github.com/tonkeeper/tongo/tlb/parser"
+	"github.com/tonkeeper/tongo/utils"
 	"verifharness/h"
 	"verifharness/tlbmini"
+	"verifharness/tlbx"
 )
 
 // TL-B half of property C09: tlb/parser.GenerateGolangTypes is run on random TL-B schemas (twice: identical output),
@@ -30,12 +36,134 @@ func registerTlbOps(ops map[string]h.ExecFn) {
 		}
 		return "ok"
 	}
-	ops["go.tlbc.values"] = func(a []string) string {
-		path, err := ensureTlbProgram(string(h.MustUnHex(a[0])))
-		if err != nil {
-			return failf("nocompile", "%v", err)
+	for _, op := range []string{"go.tlbc.values", "tlbs.desc", "tlbs.enc", "tlbs.dec"} {
+		op := op
+		ops[op] = func(a []string) string {
+			path, err := ensureTlbProgram(string(h.MustUnHex(a[0])))
+			if err != nil {
+				if strings.HasPrefix(op, "go.") {
+					return failf("nocompile", "%v", err)
+				}
+				return "nocompile"
+			}
+			return forwardTo(path, op, a)
 		}
-		return forwardTo(path, "go.tlbc.values", a)
+	}
+	ops["go.regen.abi"] = func([]string) string { return goRegenAbi() }
+	ops["tlbs.absdesc"] = exAbsDesc
+	ops["tlbs.ok"] = func(a []string) string { return "ok 1 1" } // the schema generator stays inside the subset
+}
+
+// goRegenAbi: run the repository's abi/generator.go on the checked-in abi/schemas into a scratch directory and compare
+// every artefact it writes with the checked-in file (as go.regen.liteclient does for the TL bindings).
+func goRegenAbi() string {
+	repo := repoDir()
+	dir, err := scratchDir("regen-abi")
+	if err != nil {
+		return failf("regen-scratch", "%v", err)
+	}
+	defer os.RemoveAll(dir)
+	bin := filepath.Join(dir, "gen")
+	cmd := osexec.Command("go", "build", "-o", bin, "./abi/generator.go")
+	cmd.Dir = repo
+	if out, err := cmd.CombinedOutput(); err != nil {
+		return failf("regen-build", "%v: %.300s", err, out)
+	}
+	cp := osexec.Command("cp", "-r", filepath.Join(repo, "abi", "schemas"), filepath.Join(dir, "schemas"))
+	if out, err := cp.CombinedOutput(); err != nil {
+		return failf("regen-input", "%v: %s", err, out)
+	}
+	run := osexec.Command(bin)
+	run.Dir = dir
+	if out, err := run.CombinedOutput(); err != nil {
+		return failf("regen-run", "abi/generator.go on the checked-in abi/schemas: %v: %.200s", err, strings.ReplaceAll(string(out), "\n", " "))
+	}
+	for _, f := range []string{"types.go", "messages_generated.go", "get_methods.go", "interfaces.go", "jetton_msg_types.go",
+		"nfts_msg_types.go", "contracts_errors.go", "messages.md"} {
+		got, err1 := os.ReadFile(filepath.Join(dir, f))
+		want, err2 := os.ReadFile(filepath.Join(repo, "abi", f))
+		if err1 != nil || err2 != nil || string(got) != string(want) {
+			return failf("regen-differs", "abi/%s is not what abi/generator.go produces from abi/schemas", f)
+		}
+	}
+	return "ok"
+}
+
+// ---------------------------------------------------------------------------------- the checked-in abi structs
+
+var (
+	abiTypesOnce sync.Once
+	abiTypes     map[string]reflect.Type
+)
+
+// exAbsDesc: tlbs.absdesc <tlb text> <Type> <Go type name in package abi> <skipMagic> — the reflection descriptor of
+// the CHECKED-IN generated struct (the abi generator cannot be re-run, see go.regen.abi), to be compared with what the
+// declaration in abi/schemas denotes.
+func exAbsDesc(a []string) string {
+	abiTypesOnce.Do(func() {
+		abiTypes = map[string]reflect.Type{}
+		for _, t := range tlbx.Registry {
+			abiTypes[tlbx.TypeName(t)] = t
+		}
+	})
+	rt, ok := abiTypes["abi."+a[2]]
+	if !ok {
+		return "nobinding abi." + a[2]
+	}
+	u := tlbx.NewUniverse()
+	d := u.Describe(rt)
+	body, ok := u.Named[d.Name]
+	if !ok {
+		return "nobinding not a named struct"
+	}
+	return "ok " + tlbmini.NormDesc(body.TextIdx(nil)) + " " + tlbmini.GoFieldNames(body)
+}
+
+// genAbi: every TL-B declaration of abi/schemas/*.xml that lies in the modelled subset (all of its types are builtin
+// or declared in the same block) against the checked-in struct of package abi.
+func genAbi(g *h.G) {
+	files, _ := filepath.Glob(filepath.Join(repoDir(), "abi", "schemas", "*.xml"))
+	sort.Strings(files)
+	emit := func(text, goPrefix string, skipMagic bool) {
+		s, err := tlbmini.Parse(text)
+		if err != nil || !s.Closed() {
+			g.Count("abi_decls_outside_subset")
+			return
+		}
+		for _, tn := range s.TypeNames() {
+			goName := tn
+			if goPrefix != "" {
+				goName = goPrefix
+			}
+			sm := "0"
+			if skipMagic {
+				sm = "1"
+			}
+			g.Count("abi_decls_compared")
+			g.Emit("tlbs.absdesc", hex.EncodeToString([]byte(text)), tn, goName, sm)
+		}
+	}
+	for _, f := range files {
+		raw, err := os.ReadFile(f)
+		if err != nil {
+			continue
+		}
+		a, err := abiparser.ParseABI(raw)
+		if err != nil {
+			g.Count("abi_files_unparsed")
+			continue
+		}
+		for _, t := range a.Types {
+			emit(t, "", false)
+		}
+		for _, grp := range []struct {
+			ms     []abiparser.Message
+			suffix string
+		}{{a.Internals, "MsgBody"}, {a.ExtIn, "ExtInMsgBody"}, {a.ExtOut, "ExtOutMsgBody"}, {a.JettonPayloads, "JettonPayload"}, {a.NFTPayloads, "NFTPayload"}} {
+			for _, m := range grp.ms {
+				emit(m.Input, utils.ToCamelCase(m.Name)+grp.suffix, true)
+			}
+		}
 	}
 }
 
@@ -69,7 +197,6 @@ import (
 	"encoding/hex"
 	"os"
 	"reflect"
-	"strconv"
 	"strings"
 
 	"github.com/tonkeeper/tongo/boc"
@@ -80,14 +207,9 @@ import (
 var bindings = map[string]map[string]reflect.Type{
 %s}
 
-func run(line string) (ans string) {
-	defer func() {
-		if r := recover(); r != nil {
-			ans = "FAIL panic"
-		}
-	}()
+func run(line string) string {
 	f := strings.Fields(line)
-	if len(f) != 5 || f[0] != "go.tlbc.values" {
+	if len(f) < 3 {
 		return "bad-op"
 	}
 	raw, err := hex.DecodeString(f[1])
@@ -97,11 +219,12 @@ func run(line string) (ans string) {
 	sum := sha1.Sum(append([]byte("tlb:"), raw...))
 	types, ok := bindings[hex.EncodeToString(sum[:8])]
 	if !ok {
-		return "FAIL noprogram"
+		if strings.HasPrefix(f[0], "go.") {
+			return "FAIL noprogram"
+		}
+		return "noprogram"
 	}
-	seed, _ := strconv.ParseInt(f[3], 10, 64)
-	count, _ := strconv.Atoi(f[4])
-	return tlbmini.CheckValues(string(raw), types, f[2], seed, count,
+	return tlbmini.Serve(f, string(raw), types,
 		func(c *boc.Cell, o any) error { return tlb.Marshal(c, o) },
 		func(c *boc.Cell, o any) error { return tlb.Unmarshal(c, o) })
 }
@@ -232,6 +355,8 @@ func ensureTlbProgram(schema string) (string, error) {
 }
 
 func genTlb(g *h.G) {
+	g.Emit("go.regen.abi")
+	genAbi(g)
 	n := g.Scale(6, 100)
 	var schemas []*tlbmini.Schema
 	var texts []string
@@ -252,9 +377,31 @@ func genTlb(g *h.G) {
 		hx := hex.EncodeToString([]byte(texts[i]))
 		g.Emit("go.tlbc.generate", hx)
 		g.Emit("go.tlbc.compile", hx)
+		g.Emit("tlbs.ok", hx)
+		path, perr := ensureTlbProgram(texts[i])
 		for _, tn := range s.TypeNames() {
 			g.NonTrivial("tlb/" + tlbSid(texts[i]) + "/" + tn)
+			g.Emit("tlbs.desc", hx, tn)
 			g.Emit("go.tlbc.values", hx, tn, fmt.Sprint(g.Rng.Int63()), fmt.Sprint(g.Scale(40, 200)))
+			if perr != nil {
+				continue
+			}
+			// values come from the compiled program (reflection generator of package tlbx over the generated structs)
+			ans := forwardTo(path, "gen", []string{hx, tn, fmt.Sprint(g.Rng.Int63()), fmt.Sprint(g.Scale(12, 40))})
+			if !strings.HasPrefix(ans, "ok ") {
+				continue
+			}
+			for _, it := range strings.Fields(ans[3:]) {
+				k := strings.LastIndexByte(it, '@')
+				if k < 0 {
+					continue
+				}
+				g.Count("tlb_values")
+				g.Emit("tlbs.enc", hx, tn, it[:k])
+				if it[k+1:] != "!" {
+					g.Emit("tlbs.dec", hx, tn, it[k+1:])
+				}
+			}
 		}
 	}
 }
